@@ -17,6 +17,7 @@ INVARIANT ISAgree
 INVARIANT CompInv
 INVARIANT BufInv
 INVARIANT TaintInv
+INVARIANT UniformInv
 INVARIANT PendInv
 INVARIANT HashInv
 INVARIANT Emit
